@@ -1456,6 +1456,16 @@ func (s *Netceptor) handleRoutingUpdate(ri *routingUpdate, recvConn string) {
 		// Our peer is still trying to initialize
 		return
 	}
+	for conn, cost := range ri.Connections {
+		if !(cost > 0.0) {
+			// Connection costs are always positive (see runProtocol). A zero or negative cost
+			// would make the shortest-path calculation in updateRoutingTable loop forever.
+			s.Logger.SanitizedWarning("Ignoring routing update %s from %s via %s: non-positive cost %f for connection %s\n",
+				ri.UpdateID, ri.NodeID, recvConn, cost, conn)
+
+			return
+		}
+	}
 	if ri.NodeID == s.nodeID {
 		if ri.UpdateEpoch == s.epoch {
 			return
